@@ -154,7 +154,8 @@ func ammoprovMain(args []string) {
 			total++
 		}
 		// fault injection (mem fs + one file fault per cell): a rotating third of the file-backed cells
-		if *faults && c.Kind != "uris" && (c.ID+seed0)%3 == 0 {
+		// (c.ID/3: the last factor of a table id is the cut - the rotation must not depend on it)
+		if *faults && c.Kind != "uris" && (c.ID/3+seed0)%3 == 0 {
 			k := fmt.Sprintf("%s-%v-fault", c.Kind, c.Preload)
 			groups[k] = append(groups[k], c)
 			total++
@@ -316,7 +317,13 @@ func ammoprovChild(args []string) {
 			if c.Kind == "httpscn" || c.Kind == "grpcscn" {
 				opts = []apFault{{"close", 0}, {"read", 1}, {"read", 2}, {"stat", 0}, {"open", 0}}
 			}
-			obs.fault = opts[(c.ID/3+seed)%len(opts)]
+			obs.fault = opts[(c.ID/9+seed)%len(opts)]
+			// a source that cannot seek (FIFO, pipe): half of the fault runs of the cells whose bounds lie inside the
+			// first pass, for the kinds that do not peek into their file
+			if (c.Kind == "uri" || c.Kind == "raw" || c.Kind == "uripost" || c.Kind == "grpcjson") && c.Cut == 0 &&
+				c.Bounded && c.Expected <= c.Entries && (c.ID/9+seed)%2 == 0 {
+				obs.fault = apFault{"noseek", 0}
+			}
 			obs.Fault = obs.fault.String()
 			obs.lay.Oversize, obs.Reject = 0, false // one deviation at a time
 		}
